@@ -70,6 +70,7 @@ static bool usesAlpha(TypeOneDRule r){ return r == rule_gaussgegenbauer || r == 
 static bool usesBeta(TypeOneDRule r){ return r == rule_gaussjacobi || r == rule_gaussjacobiodd; }
 
 // class of the state: linear transforms are decided per rule (switch statements over the rule enum), the conformal code is rule-independent
+static bool g_hang_seen = false; // per configuration: once a watchdog expired, later conformal+linear states skip their evaluation phase
 static std::string ctag(const Cfg &e){ return e.conformal.empty() ? "" : (e.ta.empty() ? "conformal:" : "conformal+linear:"); }
 static std::string pre(const Cfg &e, const char *what){ return "C10:" + ctag(e) + what + ":"; }
 
@@ -81,10 +82,12 @@ static void check(Ctx &c, const Cfg &E, const TasmanianSparseGrid &G, const Tasm
     bool lin = !E.ta.empty(), conf = !E.conformal.empty(); std::string tag = conf ? fam : rtag(G); state_label(ctag(E) + tag); DomKind dk = (E.fam == F_FOURIER) ? K_FOURIER : domkind(E.rule);
     bool loaded = G.getNumLoaded() > 0 && G.getNumOutputs() > 0; int outs = G.getNumOutputs();
     bool wav = G.isWavelet(); bool nonnested = nonNestedGlobal(G);
-    double tolE = conf ? 1e-8 : 1e-9; if (wav) tolE = 1e-7;
+    // under a conformal map the library's inverse is accurate to 1e-12 in x; global bases of degree n amplify that by up to n^2
+    double tolE = conf ? 1e-8 : 1e-9; if (wav) tolE = 1e-7; if (conf && (G.isGlobal() || G.isSequence())) tolE = std::max(tolE, 2e-11 * (double) n * (double) n);
     std::vector<LinMap> M; for(int j=0;j<d;j++) M.push_back(linmap(E, j));
-    auto rep = [&](const std::string &sig, const std::string &detail){ report(c, sig, E, hist, detail); };
-    auto cnt = [&](const char *k){ c.evals++; c.outcomes[ctag(E) + k + ":" + fam]++; };
+    Ctx *cp = &c; // the evaluation phase of a conformal+linear state runs in a watchdog child with a context of its own
+    auto rep = [&](const std::string &sig, const std::string &detail){ report(*cp, sig, E, hist, detail); };
+    auto cnt = [&](const char *k){ cp->evals++; cp->outcomes[ctag(E) + k + ":" + fam]++; };
     // ---- bookkeeping getters
     if (G.isSetDomainTransfrom() != lin || G.isSetConformalTransformASIN() != conf){ rep(pre(E, "flags") + tag, "isSetDomainTransfrom/isSetConformalTransformASIN = " + std::to_string(G.isSetDomainTransfrom()) + "/" + std::to_string(G.isSetConformalTransformASIN())); return; }
     if (lin){ std::vector<double> a, b; G.getDomainTransform(a, b); if (a != E.ta || b != E.tb){ rep(pre(E, "getter") + tag, "getDomainTransform() does not return the vectors that were set"); return; } }
@@ -202,6 +205,7 @@ static void check(Ctx &c, const Cfg &E, const TasmanianSparseGrid &G, const Tasm
             for(double mult : {1.0, 1e6}){ std::vector<double> x = X[0]; x[j] = side ? bnd + mult * eps : bnd - mult * eps; cnt("domain-inside");
                 if (inside(x)){ bad = true; std::ostringstream o; o.precision(17); o << "point with coordinate " << j << " = " << x[j] << " (bound " << bnd << (side ? " + " : " - ") << mult * eps << ") is accepted by getDomainInside()"; rep(pre(E, "domain-inside:accepts-outside") + tag, o.str()); break; } } }
     }
+    auto eval_phase = [&](){
     // ---- F. interpolation weights: pulled back, and the delta property at the mapped nodes
     {
         bool bad = false;
@@ -209,21 +213,14 @@ static void check(Ctx &c, const Cfg &E, const TasmanianSparseGrid &G, const Tasm
             for(size_t p=0;p<X.size();p++){ auto iw = G.getInterpolationWeights(X[p]); auto iwc = C.getInterpolationWeights(T[p]); double sa = 0; for(double v : iwc) sa += std::abs(v);
                 for(int i=0;i<n;i++){ if (!(std::abs(iw[i] - iwc[i]) <= tolE * std::max(1.0, sa))){ std::ostringstream o; o.precision(15); o << "interpolation weight " << i << " at probe " << p << " (x = " << X[p][0] << (d > 1 ? ",..." : "") << "): " << iw[i] << ", canonical grid at the pulled-back point (t = " << T[p][0] << (d > 1 ? ",..." : "") << "): " << iwc[i]; return o.str(); } } }
             return ""; };
-        c.evals += (long) X.size() * n; c.outcomes[ctag(E) + "weights-pullback:" + fam] += (long) X.size() * n;
-        std::string res;
-        if (conf && lin){
-            // the library's inverse runs a Newton iteration without an iteration cap: guarded by a watchdog of its own
-            vf::Outcome o = vf::run_child([&](int fd){ std::string r = pullback(); vf::wr(fd, r.empty() ? "OK" : r); }, 2.0);
-            if (o.kind == vf::Outcome::TIMEOUT){ c.outcomes["conformal+linear:hang:" + fam]++; rep(pre(E, "hang") + tag, "getInterpolationWeights() at an interior probe of the transformed domain does not return within 2 s (Newton inverse of the conformal map)"); return; }
-            if (o.kind != vf::Outcome::OK){ rep(pre(E, "crash") + tag, o.describe() + ": " + o.err.substr(0, 800)); return; }
-            res = (o.out == "OK") ? "" : o.out;
-        }else res = pullback();
+        cp->evals += (long) X.size() * n; cp->outcomes[ctag(E) + "weights-pullback:" + fam] += (long) X.size() * n;
+        std::string res = pullback();
         if (!res.empty()){ rep(pre(E, "weights-pullback") + tag, res); if (conf && lin) return; bad = true; }
         if (!nonnested && !(G.isLocalPolynomial() && G.getOrder() == 0) && n <= 400){
             int stride = std::max(1, n / 24);
             for(int i=0;i<n && !bad;i+=stride){ std::vector<double> x(xp.begin() + (size_t) i*d, xp.begin() + (size_t)(i+1)*d); auto iw = G.getInterpolationWeights(x); double sa = 0; for(double v : iw) sa += std::abs(v);
                 for(int q=0;q<n && !bad;q++){ cnt("weights-delta"); double ex = (q == i) ? 1.0 : 0.0;
-                    if (!(std::abs(iw[q] - ex) <= (wav ? 1e-6 : 1e-8) * std::max(1.0, sa))){ bad = true; std::ostringstream o; o.precision(15); o << "interpolation weight " << q << " at the mapped node " << i << " (" << x[0] << (d > 1 ? ",..." : "") << ") is " << iw[q] << ", expected " << ex; rep(pre(E, "weights-delta") + tag, o.str()); } } }
+                    if (!(std::abs(iw[q] - ex) <= std::max(wav ? 1e-6 : 1e-8, tolE) * std::max(1.0, sa))){ bad = true; std::ostringstream o; o.precision(15); o << "interpolation weight " << q << " at the mapped node " << i << " (" << x[0] << (d > 1 ? ",..." : "") << ") is " << iw[q] << ", expected " << ex; rep(pre(E, "weights-delta") + tag, o.str()); } } }
         }
     }
     // ---- D'. meaning of the support under a conformal map (header): a basis function vanishes at any x farther from its node than the support
@@ -258,7 +255,7 @@ static void check(Ctx &c, const Cfg &E, const TasmanianSparseGrid &G, const Tasm
             bool threw = false; std::string msg;
             try{ G.differentiate(X[p], Dg); }catch(std::runtime_error &e){ threw = true; msg = e.what(); }
             if (conf){
-                cnt("differentiate"); if (threw){ c.outcomes["conformal:differentiate-refused:" + fam]++; continue; }
+                cnt("differentiate"); if (threw){ cp->outcomes[ctag(E) + "differentiate-refused:" + fam]++; continue; }
                 for(int k=0;k<outs && !bad;k++) for(int j=0;j<d && !bad;j++){
                     double ex = Dc[k*d+j] / (asin_der(T[p][j], E.conformal[j]) * M[j].dxdt()); double sa = 0; for(int i=0;i<nl;i++) sa += std::abs(dwc[(size_t) i*d+j] * v[(size_t) i*outs+k]);
                     if (!(std::abs(Dg[k*d+j] - ex) <= 1e-6 * std::max(1.0, sa) / M[j].dxdt())){ bad = true; std::ostringstream o; o.precision(15); o << "differentiate() does not refuse a conformal grid and returns " << Dg[k*d+j] << " for output " << k << " direction " << j << " at probe " << p << "; the derivative of evaluate() there is " << ex << " (canonical gradient " << Dc[k*d+j] << " / (g'(t) dx/dt))"; rep(pre(E, "differentiate") + tag, o.str()); } }
@@ -272,6 +269,14 @@ static void check(Ctx &c, const Cfg &E, const TasmanianSparseGrid &G, const Tasm
                 if (!(std::abs(dw[(size_t) i*d+j] - ex) <= tolE * std::max(1.0, std::abs(ex)) * (1 + (G.isGlobal() || G.isSequence() ? nl : 0)))){ bad = true; std::ostringstream o; o.precision(15); o << "differentiation weight " << i << " direction " << j << " at probe " << p << ": " << dw[(size_t) i*d+j] << ", canonical " << dwc[(size_t) i*d+j] << " x documented Jacobian " << J; rep(pre(E, "diff-weights-scale") + tag, o.str()); } }
         }
     }
+    };
+    if (conf && lin){
+        // every x-taking call runs the library's Newton inverse of the conformal map, which has no iteration cap: watchdog child
+        if (g_hang_seen){ c.skipped++; return; }
+        vf::Outcome o = vf::run_child([&](int fd){ Ctx cc; cc.unit = c.unit; cp = &cc; g_signew.clear(); eval_phase(); vf::wr(fd, pack(cc)); }, 5.0);
+        if (o.kind == vf::Outcome::TIMEOUT){ g_hang_seen = true; c.outcomes["conformal+linear:hang:" + fam]++; rep(pre(E, "hang") + tag, "an x-taking call (getInterpolationWeights / evaluate / evaluateHierarchicalFunctions at interior probes and grid points) does not return within 5 s (Newton inverse of the conformal map)"); return; }
+        if (o.kind != vf::Outcome::OK || !merge(c, o.out)){ rep(pre(E, "crash") + tag, o.describe() + ": " + ((o.kind == vf::Outcome::SANITIZER) ? o.sanitizer_class() : "") + " " + o.err.substr(0, 800)); return; }
+    }else eval_phase();
 }
 
 // ---------------------------------------------------------------- (a,b) alphabet and conformal alphabet
@@ -299,7 +304,7 @@ static bool same_obs(Ctx &c, const Cfg &E, const TasmanianSparseGrid &G, const T
 static int g_ab_index(const Cfg &cfg){ for(int i=0;i<3;i++){ std::vector<double> a, b; ab_alphabet(cfg, i, a, b); if (a == cfg.ta && b == cfg.tb) return i; } return -1; }
 
 static void explore_cfg(Ctx &c, const Cfg &cfg){
-    int d = cfg.dims; std::string hist = "make";
+    int d = cfg.dims; std::string hist = "make"; g_hang_seen = false;
     Cfg can = cfg; can.ta.clear(); can.tb.clear(); can.conformal.clear();
     try{
         TasmanianSparseGrid G, C; make(G, cfg); make(C, can); c.transitions += 1 + (cfg.ta.empty() ? 0 : 1) + (cfg.conformal.empty() ? 0 : 1);
@@ -377,11 +382,11 @@ int main(int argc, char **argv){
     vf::Args A(argc, argv);
     g_tier = A.get("--tier", "quick");
     double dl = A.getd("--deadline", 0); if (dl > 0) vf::g_deadline = vf::now() + dl;
-    if (A.has("--replay")) return run_replay("C10", A.get("--replay"), HIST_ALL, explore_cfg);
+    if (A.has("--replay")) return run_replay("C10", A.get("--replay"), HIST_ALL, explore_cfg, 120.0);
     auto U = units();
     if (A.has("--list")){ size_t n = 0; for(auto &u : U){ printf("%s %zu\n", u.name.c_str(), u.cfgs.size()); n += u.cfgs.size(); } printf("total %zu\n", n); return 0; }
     std::string bound = std::string("C10 lattice tier=") + g_tier + ": canonical-domain classes [-1,1] (global nested/non-nested, sequence, local polynomial, wavelet), Fourier, Laguerre, Hermite, Chebyshev 1/2, Gegenbauer, Jacobi; dims <= " +
         (g_tier == "thorough" ? "3" : "2") + "; (a,b) alphabet {none, 3 vectors}; conformal {none, (1..), (3..), (2,4,1)/(6)}; histories of 6-8 transitions (set, load, change, clear, conformal set/clear, set again, write/read x2)";
-    run_all("C10", U, (int) A.geti("--workers", 8), bound, HIST_ALL, explore_cfg, 20.0);
+    run_all("C10", U, (int) A.geti("--workers", 8), bound, HIST_ALL, explore_cfg, 60.0);
     return 0;
 }
